@@ -22,6 +22,10 @@ FLAVOURS = {
     'gcc-asan':   ('g++',     '-std=c++11 -O1 ' + SAN, 'single'),
     'clang-asan-dev': ('clang++', '-std=c++11 -O1 ' + SAN + ' -fno-sanitize=object-size', 'dev'),
     'gcc-O2':     ('g++',     '-std=c++11 -O2', 'single'),
+    'id-clang':   ('clang++', '-std=c++11 -O0', 'single'),
+    'id-gcc':     ('g++',     '-std=c++11 -O0', 'single'),
+    'id-gcc17':   ('g++',     '-std=c++17 -O0', 'single'),
+    'id-clang-dev': ('clang++', '-std=c++11 -O0', 'dev'),
 }
 SAN_ENV = {'ASAN_OPTIONS': 'halt_on_error=1:detect_leaks=0:exitcode=77:abort_on_error=0', 'UBSAN_OPTIONS': 'print_stacktrace=1:halt_on_error=1:exitcode=78'}
 
